@@ -22,3 +22,11 @@ claim("C18",
  "Config.IPAllowed is proved equivalent to 'no allowlist or some allowed network contains the IP' (loop invariant), and aliveNode is proved to create a record or adopt a new address only after IPAllowed accepted the claimed address.",
  BASE + "net.IPNet.Contains is an uninterpreted pure function of (network value, ip bytes); CIDRsAllowed is not modified after Create. handleAlive's source check pending.",
  "DESIGN.md §5 C18")
+claim("C09",
+ "verifyProtocol's universally quantified compatibility statement (every alive range contains every node's current protocol and delegate version, over remote x remote, remote x local, local x remote, local x local) is proved with loop invariants; mergeState is proved to turn a remote dead/suspect entry into a suspicion only, a left entry into a self-signed dead, an alive entry into an alive with the fields copied; mergeRemoteState is proved to merge nothing when verification or the merge delegate fails and to merge exactly once otherwise; handleConn/pushPullNode merge only after a complete read (and, on the receiving side, a sent reply), refuse before reading when the concurrent-request cap is hit, and node/user-state caps dominate the allocations.",
+ BASE + "msgpack Decode is an external: it returns a value or an error and reads only from its reader (stream cuts, oversize headers and failed authentication all surface as a non-nil error). Not decided: that the remote side merged us by the time Join returns (timing).",
+ "DESIGN.md §5 C09")
+claim("C13",
+ "Zero-annotation no-panic sweep (nil dereference, index and slice bounds, nil-map write, failing type assertion, close of closed channel, explicit panic, makeslice range, division by zero) of every function reachable from ingestPacket and handleConn, for all byte strings and all states satisfying the lock invariants, plus site obligations that every documented cap (nodes, user state, user message, encrypted length, decompressed size, concurrent push/pulls, hand-off queue depth) dominates the allocation or buffering it protects, and that the push/pull counter is balanced on every path. Three genuine defects found by this sweep were repaired (fix: commits) and are recorded in known_findings.json.",
+ BASE + "External decoders (msgpack, LZW, AES-GCM) return a value or an error and do not panic; AEAD.Open returns len-16 bytes on success; bufio.Reader.Peek(n) returns exactly n bytes or an error. Not decided: hangs, goroutine or connection leaks (liveness).",
+ "DESIGN.md §5 C13")
